@@ -159,6 +159,10 @@ EXTRA_FILES = {
             'django_evolution/mutations/base.py'],
     'C01': ['django_evolution/mutators/base.py'],
     'C02': ['django_evolution/mutators/base.py'],
+    # ChangeMeta.simulate() consults the backends' supported_change_meta
+    'C05': ['django_evolution/db/common.py', 'django_evolution/db/sqlite3.py',
+            'django_evolution/db/mysql.py',
+            'django_evolution/db/postgresql.py'],
 }
 
 
@@ -657,6 +661,138 @@ def run_method_truthiness(ctx, prop: str):
     ctx.counts['R-%s.98 conditions scanned for bound methods' % pid] = n
     if n and not hit:
         ctx.ok((mods[0].name, '*'), 'no condition tests a bound method')
+
+
+def run_sticky_flags(ctx, prop: str):
+    """.99  a Boolean flag that a loop sets for the current element and tests
+    inside the same loop must be reset in every iteration: if the value set
+    in one iteration can reach the test of a later one (through the loop
+    head, with no other assignment in between), the decision taken for one
+    element silently applies to all the following ones."""
+    p = ctx.program
+    files = anchor_files(prop) + EXTRA_FILES.get(prop.upper(), [])
+    mods = [m for m in p.modules.values() if m.relpath in files]
+    pid = prop.upper()
+    ctx.rule('R-%s.99' % pid)
+    n, hit = 0, False
+    for m in mods:
+        for f in m.all_funcs():
+            loops = [l for l in walk_no_nested(f.node)
+                     if isinstance(l, (ast.For, ast.While))]
+            g = None
+            for l in loops:
+                body_nodes = [x for st in l.body for x in ast.walk(st)]
+                sets = {}
+                for x in body_nodes:
+                    if isinstance(x, ast.Assign) and len(x.targets) == 1 and \
+                            isinstance(x.targets[0], ast.Name) and \
+                            isinstance(x.value, ast.Constant) and \
+                            isinstance(x.value.value, bool):
+                        sets.setdefault(x.targets[0].id, []).append(x)
+                for name, asgs in sets.items():
+                    tests = [x for x in body_nodes
+                             if isinstance(x, (ast.If, ast.While)) and any(
+                                 isinstance(y, ast.Name) and y.id == name
+                                 for y in ast.walk(x.test))]
+                    if not tests:
+                        continue
+                    n += 1
+                    if g is None:
+                        g = ctx.cfg(f)
+                    head = next((nd for nd in g.nodes if nd.kind == 'for' and
+                                 nd.ast is l), None) or next(
+                        (nd for nd in g.nodes if nd.stmt is l), None)
+                    allasg = [nd for nd in g.nodes if nd.kind == 'stmt' and
+                              isinstance(nd.ast, ast.Assign) and any(
+                                  isinstance(t, ast.Name) and t.id == name
+                                  for t in nd.ast.targets)]
+                    for a in asgs:
+                        an = next((nd for nd in g.nodes if nd.ast is a), None)
+                        if an is None or head is None:
+                            continue
+                        others = [x for x in allasg if x is not an]
+                        if g.path(an, head, avoid=others,
+                                  follow_exc=False) is None:
+                            continue
+                        for t in tests:
+                            for tn in [nd for nd in g.nodes
+                                       if nd.stmt is t and
+                                       nd.kind in ('test', 'operand')]:
+                                if not any(isinstance(y, ast.Name) and
+                                           y.id == name
+                                           for y in ast.walk(tn.ast)):
+                                    continue
+                                if g.path(head, tn, avoid=allasg,
+                                          follow_exc=False) is not None:
+                                    hit = True
+                                    ctx.finding(
+                                        f, a, '%s sets the flag %r for one '
+                                        'element of the loop at line %d and '
+                                        'tests it for the next ones without '
+                                        'resetting it: everything after the '
+                                        'first element that sets it is '
+                                        'treated the same way' % (
+                                            f.qualname, name, l.lineno),
+                                        key='sticky-flag:%s' % name)
+    ctx.counts['R-%s.99 per-iteration flags examined' % pid] = n
+    if not hit:
+        ctx.ok((mods[0].name, '*'), 'no per-iteration flag survives into the '
+               'next iteration')
+
+
+def run_class_alias_mutation(ctx, prop: str):
+    """.89  a class body that binds a name to another class's attribute
+    (`table = Base.table`) and then mutates it in place changes the *other*
+    class's table for every subclass and backend loaded in the process."""
+    p = ctx.program
+    files = anchor_files(prop) + EXTRA_FILES.get(prop.upper(), [])
+    mods = [m for m in p.modules.values() if m.relpath in files]
+    pid = prop.upper()
+    ctx.rule('R-%s.89' % pid)
+    n, hit = 0, False
+    MUT = {'update', 'append', 'extend', 'add', 'pop', 'remove', 'clear',
+           'insert', 'setdefault', 'discard'}
+    for m in mods:
+        for c in m.classes.values():
+            aliases = {}
+            for st in c.node.body:
+                if isinstance(st, ast.Assign) and len(st.targets) == 1 and \
+                        isinstance(st.targets[0], ast.Name) and \
+                        isinstance(st.value, ast.Attribute) and \
+                        isinstance(st.value.value, ast.Name) and \
+                        st.value.value.id[:1].isupper():
+                    aliases[st.targets[0].id] = st
+                    n += 1
+                bad = None
+                if isinstance(st, ast.Expr) and \
+                        isinstance(st.value, ast.Call) and \
+                        isinstance(st.value.func, ast.Attribute) and \
+                        st.value.func.attr in MUT and \
+                        isinstance(st.value.func.value, ast.Name) and \
+                        st.value.func.value.id in aliases:
+                    bad = st.value.func.value.id
+                if isinstance(st, (ast.Assign, ast.Delete)):
+                    for t in (st.targets if hasattr(st, 'targets') else []):
+                        if isinstance(t, ast.Subscript) and \
+                                isinstance(t.value, ast.Name) and \
+                                t.value.id in aliases:
+                            bad = t.value.id
+                if bad:
+                    hit = True
+                    ctx.finding((m.name, c.name), st, 'the body of %s binds '
+                                '%s to %s and then changes it in place: the '
+                                'change is made to the other class\'s '
+                                'object and is seen by every class that '
+                                'shares it (all backends loaded in the '
+                                'process)' % (
+                                    c.name, bad,
+                                    unparse(aliases[bad].value)),
+                                key='class-attribute-alias-mutated:%s' % bad)
+    ctx.counts['R-%s.89 class-level aliases of other classes\' attributes'
+               % pid] = n
+    if not hit:
+        ctx.ok((mods[0].name, '*'), 'no class body mutates an attribute it '
+               'merely aliases from another class')
 
 
 def run_options(ctx, prop: str):
